@@ -48,6 +48,9 @@ Definition i_opt {A} (p : iparser A) : iparser (option A) :=
   fun s => match p s with IOk s' a => IOk s' (Some a) | IErr _ _ => IOk s None | IPanic => IPanic | IFuel => IFuel end.
 Definition i_pair {A B} (p : iparser A) (q : iparser B) : iparser (A * B) :=
   fun s => ibind (p s) (fun s1 a => ibind (q s1) (fun s2 b => IOk s2 (a, b))).
+(* Statement::parse_error: the error is re-issued with the original input (kind unchanged) *)
+Definition i_restore {A} (p : iparser A) : iparser A :=
+  fun s => match p s with IErr _ b => IErr s b | r => r end.
 Definition i_preceded {A B} (p : iparser A) (q : iparser B) : iparser B := i_map snd (i_pair p q).
 Definition i_terminated {A B} (p : iparser A) (q : iparser B) : iparser A := i_map fst (i_pair p q).
 Fixpoint i_many0 {A} (fuel : nat) (p : iparser A) (s : ist) : ires (list A) :=
@@ -615,10 +618,11 @@ Fixpoint i_stmt (fuel : nat) (this : option stmt) : iparser stmt :=
           (i_alt (p_block None)
           (i_alt (i_call f None)
           (i_alt (i_assign f None)
+             (i_restore
              (i_map (fun r => let '((_, ignored), inf) := r in
                               SError (info_append inf {| e_s := i_s inf; e_e := i_e inf;
                                                          e_m := EParse (UnexpectedCharacters (show_tokens ignored)) |}))
-                (i_info (i_pair i_comments (i_ignore1 i_la_stmt))))))))) s0
+                (i_info (i_pair i_comments (i_ignore1 i_la_stmt)))))))))) s0
       end
   end.
 
